@@ -16,7 +16,9 @@ PID = 'C15'
 
 TEXTS = ['ab cd_ef', "it's 100%41+x y", '1234567.891', 'Hello big World foo', '', 'a\r\nb\x00c\x1ad',
          'x%2541 %2B+%20', 'aB_cD', '$1234567', "o''k' '", '12,345.5.5', 'a b c d e f g', '  pad  ',
-         '3.14159', '-1234.56789012', '1e+12345', '.1234567']
+         '3.14159', '-1234.56789012', '1e+12345', '.1234567',
+         # text that looks like markup of its own: character references, entities, tags (a modifier is a string method, not a parser)
+         'see &chapter; &#x20ac; &amp; a&b;c', '<b>bold</b> &lt;i&gt; %(x)s ${y} {z}']
 OTHERS = [other('num', '1234567', False), other('num', '0', False), other('num', '12345.5', False),
           other('none', 'None', True), other('elist', '[]', True), other('num', '1234.5678', False),
           other('num', '-98765.4321012', False),
